@@ -199,6 +199,7 @@ type verifFake struct {
 	// (nothing of it applied), as a cluster node answers for a slot it no longer owns
 	moveBatch int
 	batchRuns int
+	keyspaceReverse bool // INFO keyspace lists the databases in descending order
 }
 
 var verifErrReply = common.RedisError("OOM command not allowed when used memory > 'maxmemory'")
@@ -394,8 +395,14 @@ func (f *verifFake) apply(r verifReq) interface{} {
 		o.hasTTL, o.ttl = true, verifArgStr(r.args[1])
 		return int64(1)
 	case "info":
+		// (a client that collects the databases into a map visits them in no particular order: the
+		// listing order stands for that order - the engine iterates maps in insertion order)
 		s := "# Keyspace\r\n"
-		for db := 0; db <= f.maxDb; db++ {
+		for i := 0; i <= f.maxDb; i++ {
+			db := i
+			if f.keyspaceReverse {
+				db = f.maxDb - i
+			}
 			if n := f.st.keysIn(db); n > 0 {
 				s += "db" + strconv.Itoa(db) + ":keys=" + strconv.Itoa(n) + ",expires=0,avg_ttl=0\r\n"
 			}
@@ -497,7 +504,12 @@ func (f *verifFake) request(cmd string, args []interface{}) (interface{}, error)
 func (f *verifFake) Close() error { return nil }
 func (f *verifFake) Do(cmd string, args ...interface{}) (interface{}, error) {
 	f.batchN++
-	return f.request(cmd, args)
+	rep, err := f.request(cmd, args)
+	if err == nil && rep == nil {
+		// the real connection reports a nil bulk / nil array reply as ErrNil (proto.Reader.ReadReply)
+		return nil, common.ErrNil
+	}
+	return rep, err
 }
 func (f *verifFake) Send(cmd string, args ...interface{}) error {
 	f.batchN++
@@ -522,6 +534,9 @@ func (f *verifFake) Receive() (interface{}, error) {
 	f.pending = f.pending[1:]
 	if e, ok := r.(common.RedisError); ok {
 		return nil, e
+	}
+	if r == nil {
+		return nil, common.ErrNil
 	}
 	return r, nil
 }
